@@ -64,7 +64,7 @@ def gen_world(rng):
             kind = rng.random()
             d = rng.choice([0, 1000, 10 ** 6, 10 ** 8, NS, 2 * NS])
             refid = cfg if (cfg >= 0 and rng.random() < 0.5) else rng.randrange(2 ** 31)
-            phc = rng.choice([-1, 0, 12345, rng.randrange(10 ** 6)])
+            phc = rng.choice([-1, -2, 0, 12345, rng.randrange(10 ** 6)])
             if kind < 0.55:          # synchronised, fresh
                 tr = t + rng.choice([0, d // 2, d])                     # instant the report describes
                 if anchor is None:
@@ -179,6 +179,72 @@ def judge(items, truth, out):
     return bad
 
 
+NS_ = 10 ** 9
+# what the publications of the interleaved runs below mean: (as-of, void-after, bound, drift ppb, status).
+# Publication 1: a tight bound while synchronised.  Publication 2: chronyd was lost for 99 900 s, the clock
+# ran away at the full 50 ppm, and the first report after the outage says so.  Publication 3: tight again.
+SEM = {1: (100 * NS_, 1100 * NS_, 10 ** 6, 50000, 1), 2: (100000 * NS_, 101000 * NS_, 6 * NS_, 50000, 1), 3: (100300 * NS_, 101300 * NS_, 10 ** 6, 50000, 1)}
+ERR = {1: 9 * 10 ** 5, 2: 4995 * 10 ** 6 + 9 * 10 ** 5, 3: 9 * 10 ** 5}     # realtime minus true time around each publication
+
+
+def concurrent_part(res):
+    """a client call overlapping a publication: every placement of one snapshot() into one update of the
+    real writer (the schedules of C02), the cells it returns read as the publications above, the interval
+    computed from them by the client model at a reading one second later, against true time"""
+    from props import _shm
+    binary = c.build_harness("debug")[0]
+    cfg, _, _ = _shm.measure_cfg(binary)
+    nominal = cfg or _shm.PLACEHOLDER
+    scheds = _shm.small_scope()
+    if res.tier == "quick":
+        scheds = scheds[::4]
+    # two publications before the client attaches, the overlapped one is the third; and the overlapped one the second
+    scheds = [[("W",)] * 11 + sc for sc in scheds] + scheds
+    # the call loads the generation, the update begins and stores some cells, the call copies some cells, the
+    # update stores more, the call copies more, the update completes, the call goes on
+    for a in (0, 1):
+        for b in (2, 3, 4):
+            for c2 in range(3 - a, 11 - a, 2 if res.tier == "quick" else 1):
+                for d in range(1, 9, 2 if res.tier == "quick" else 1):
+                    scheds.append([("W",)] * 11 + [("N",)] + [("W",)] * a + [("R", 0, None)] * b + [("W",)] * c2 + [("R", 0, None)] * d
+                                  + [("W",)] * (11 - a - c2) + [("R", 0, None)] * 40)      # ... exactly to the end of this update
+    outs = c.run_lines_hang_aware(binary, [_shm.line_of(nominal, sc) for sc in scheds], "hang")
+    calls, lines = [], []
+    for sc, o in zip(scheds, outs):
+        res.evaluations += 1
+        res.count("gen:client call overlapping a publication")
+        if o == "hang":
+            continue
+        for ob in _shm.parse_obs(o):
+            if ob["t"] == "T" and ob["ret"] in ("F", "C") and ob["cells"] and any(ob["cells"]):
+                ks = [v // 1000 for v in ob["cells"][:6]] + [None]
+                if any(k not in SEM for k in ks[:6]) or any(ob["cells"][i] != 1000 * ks[i] + i for i in range(6)):
+                    continue
+                a_s, a_n, v_s, v_n = SEM[ks[0]][0] // NS_, SEM[ks[1]][0] % NS_, SEM[ks[2]][1] // NS_, SEM[ks[3]][1] % NS_
+                bound, drift = SEM[ks[4]][2], SEM[ks[5]][3]
+                st = 1 if ob["cells"][6] in (0, 1, 2) else 0      # every publication here is Synchronized
+                newest = max(ks[:6])
+                t = SEM[newest][0] + NS_                            # the call reads its clocks one second after the newest as-of it saw
+                real = t + ERR[newest]
+                lines.append("cba %d %d %d %d %d %d %d %d %d %d %d" % (a_s, a_n, v_s, v_n, bound, drift, st, real // NS_, real % NS_, t // NS_, t % NS_))
+                calls.append((sc, o, ks[:6], t, real))
+    model = c.run_model(lines) if lines else []
+    bad = []
+    for (sc, o, ks, t, real), ln, m in zip(calls, lines, model):
+        r = m.split()
+        if r[0] != "ok" or r[5] == "0":
+            continue
+        e, l = int(r[1]) * NS_ + int(r[2]), int(r[3]) * NS_ + int(r[4])
+        if len(set(ks)) > 1:
+            res.nontriv(ln)
+        if not (e - 4 <= t <= l + 4):
+            bad.append({"schedule": _shm.tok_str(sc), "impl": o, "why": [
+                "a client call overlapping a publication obtained cells of publications %s; read as the records %s the interval at the clock reading %d is [%d, %d] with status %s, "
+                "true time %d is outside it by %d ns" % (ks, {k: SEM[k] for k in sorted(set(ks))}, real, e, l, r[5], t, max(e - t, t - l))]})
+    res.oblige("a client call overlapping a publication obtains one whole publication (premise of the containment theorem), %d calls" % len(calls), not bad)
+    return bad
+
+
 def run(res, proofs_ok, proofs_why, only=None):
     rng = random.Random(res.seed * 65521 + 1)
     binary = c.build_harness("debug")[0]
@@ -217,6 +283,11 @@ def run(res, proofs_ok, proofs_why, only=None):
                          "one process, virtual clock shared by all daemon threads; fake chronyd on the real socket path inside unshare -m + tmpfs on /run",
                          "slack of 4 ns for the integer truncations (realtime read, growth, as-of) as accounted for in DESIGN.md / World/Containment.v"]
     res.assumptions.append("CLOCK_MONOTONIC_COARSE granularity and chronyd's honesty are hypotheses of the world model, not verified")
+    cbad = concurrent_part(res) if only is None else []
+    if cbad:
+        res.violation({"property": "C01", "kind": "schedule", "case": cbad[0], "others": [b["schedule"][:200] for b in cbad[1:4]],
+                       "predicate": "status Synchronized/FreeRunning => true time inside the interval, for a call that overlaps a publication",
+                       "how_to_replay": "./check C01 --replay <this file>"})
     if bad:
         res.violation({"property": "C01", "kind": "history", "case": bad[0], "others": [b["case"][:200] for b in bad[1:4]],
                        "predicate": "status Synchronized/FreeRunning => earliest - 4 ns <= true time at the realtime read <= latest + 4 ns",
@@ -231,6 +302,10 @@ def run(res, proofs_ok, proofs_why, only=None):
 def replay(res, path):
     r = json.load(open(path))
     case = r.get("case") or r.get("first_differences", [{}])[0]
+    if "schedule" in case:
+        # a client call overlapping a publication: the schedule is replayed against the oracle of C02
+        from props import _shm
+        return _shm.replay_property("C02", res, path)
     ln = case["case"]
     i = c.run_lines_in_namespace(c.build_harness("debug")[0], [ln])[0]
     t = ln.split()
